@@ -240,9 +240,6 @@ impl Printer {
                 } else {
                     format!("{name} {} {st}", label_name(*label))
                 };
-                if self.style.comment && !self.first_done && self.style.newline {
-                    s.push_str(" # c");
-                }
                 self.first_done = true;
                 s
             }
@@ -389,7 +386,13 @@ fn opt(name: &str, n: Option<i64>) -> String {
 pub fn print(c: &Cmd, style: Style) -> String {
     let mut p = Printer::new(style);
     let s = p.list(c);
-    s.trim_end().to_string()
+    let s = s.trim_end().to_string();
+    if style.comment {
+        // a comment line before the program and a trailing comment after its last token
+        format!("# leading comment; exit 9\n{s} # trailing comment; exit 9")
+    } else {
+        s
+    }
 }
 
 // ------------------------------------------------------------------ evaluation
